@@ -33,6 +33,8 @@ func runC15(c *Check, tier string) {
 	shareRule(c, "R15n", "a failed load of a dependency's directory output is reported: the error channel of the restore has room for at least one error (same obligation as R04d)", 1, "R04d", func(sub *Check) { ruleR04d(sub) }, func(k string) bool { return strings.Contains(k, "output/handlers") })
 	shareRule(c, "R15h", "an executed dependency counts as materialised: the completion function sets Target.OutputsLoaded on every path to success, so minimal mode does not run it again where mode all would not (same obligation as R03h)", 1, "R03h", func(sub *Check) { ruleExecutedCountsAsLoaded(sub, "R03h") }, nil)
 	shareRule(c, "R15i", "no goroutine started inside a worker slot runs commands: the dependency re-runs of minimal mode are sequential (same obligation as R03g)", 1, "R03g", func(sub *Check) { ruleNoSpawnInsideSlot(sub, "R03g") }, nil)
+	// a restore that failed half way is reported as failed
+	ruleDeferredResultNotClobbered(c, "R15o", "output", "output/handlers", "caching", "caching/backends", "execution", "loading", "locking")
 }
 
 func modeAtom(c *Check, op string) func(a engine.Atom) bool {
